@@ -1,5 +1,5 @@
 (* Entry points of the executable model used by the correspondence check (extracted). *)
-From RP Require Import Base Stream Target Socks Http Frames Frag MiluSyntax MiluParser MiluDoc MiluEval Dispatch MiluSound MiluWf Reload Lb Callbacks.
+From RP Require Import Base Stream Target Socks Http Frames Frag MiluSyntax MiluParser MiluDoc MiluEval Dispatch MiluSound MiluWf Reload Lb Callbacks RtLeaf MiluRoundtrip.
 From RP.Gen Require Gen_ladder.
 
 Definition HFUEL : nat := 4000.   (* header lines per HTTP head in generated cases are far fewer *)
@@ -50,3 +50,8 @@ Definition x_member_at := @member_at bytes.
 
 Definition x_client_bytes (p : N) (tgt : target) (msg : bytes) (k : N) : bytes :=
   client_bytes (match p with 0 => PHttp | 5 => PSocks5 | _ => PSocks4 end) tgt msg k.
+
+(* the printer and the denotation of the round-trip theorem (C09) *)
+Definition x_rt_print := m_print.
+Definition x_rt_denote := m_denote.
+Definition x_rt_num := TNum.
